@@ -26,7 +26,15 @@ def _events(block):
 
 
 def _results(block):
-    return [l for l in block if l.startswith('< ')]
+    # the value left in *lang_out by a decoder that does not return OK is documented as undefined: not compared
+    out = []
+    for l in block:
+        if l.startswith('< '):
+            m = re.search(r'st=(\d+)', l)
+            if m and m.group(1) != '0':
+                l = re.sub(r' lang=\S+', '', l)
+            out.append(l)
+    return out
 
 
 def _kind(e):
